@@ -41,6 +41,29 @@ def _worker(args):
                 "groups": {}, "outcomes": 0, "feasible": 0, "lib_used": [], "time": 0.0, "props": []}
 
 
+def derive_override_contracts(reg, repo, prop):
+    """Behavioural subtyping: overrides (without an own contract) of methods whose base contract asks for it."""
+    import copy
+    out = []
+    for key, c in list(reg["contracts"].items()):
+        if not getattr(c, "check_overrides", False) or prop not in c.props:
+            continue
+        path, _, qual = key.partition("::")
+        base, _, meth = qual.partition(".")
+        for cname, ci in sorted(repo.classes.items()):
+            if cname == base or not repo.is_subclass(cname, base) or meth not in ci.methods:
+                continue
+            k2 = f"{ci.module}::{cname}.{meth}"
+            if k2 in reg["contracts"]:
+                continue
+            c2 = copy.copy(c)
+            c2.key, c2.abstract, c2.trusted, c2.check_overrides = k2, False, False, False
+            c2.notes = f"derived: override checked against the contract of {key}"
+            reg["contracts"][k2] = c2
+            out.append(k2)
+    return out
+
+
 def run_functions(keys, timeout, jobs=16):
     if not keys:
         return []
@@ -83,6 +106,7 @@ def main(argv):
     timeout = 30 if tier == "quick" else 120
     keys = [k for k, c in reg["contracts"].items() if prop in c.props and not c.abstract and not c.trusted]
     keys += [k for k, lm in reg["lemmas"].items() if prop in lm.props]
+    keys += derive_override_contracts(reg, repo, prop)
     results = run_functions(keys, timeout)
     # property-level analyses (frames / flows / effect traces / lemmas): plug-ins returning the same group format
     extra = []
